@@ -53,8 +53,28 @@ class TlcResult:
 _cov_re = re.compile(r"^<(\w+) line \d+, col \d+ to line \d+, col \d+ of module (\w+)>: (\d+):(\d+)")
 
 
+def scratch_spec(files):
+    """Creates a scratch directory holding symlinks to every spec/*.tla plus the generated `files`
+    ({name: text}); returns its path (under the per-process work dir)."""
+    global _scratch_n
+    _scratch_n += 1
+    d = os.path.join(PWORK, f"spec{_scratch_n}")
+    os.makedirs(d, exist_ok=True)
+    for f in glob.glob(os.path.join(SPEC, "*.tla")):
+        dst = os.path.join(d, os.path.basename(f))
+        if not os.path.exists(dst):
+            os.symlink(f, dst)
+    for name, text in files.items():
+        with open(os.path.join(d, name), "w") as fh:
+            fh.write(text)
+    return d
+
+
+_scratch_n = 0
+
+
 def run_tlc(module, cfg, workers=4, timeout=600, simulate=None, depth=None, dump=None, env=None,
-            coverage=True, heap="4g", tag=None, deque=False, seed=None, continue_=False):
+            coverage=True, heap="4g", tag=None, deque=False, seed=None, continue_=False, cwd=None, xss="64m"):
     """Runs TLC on spec/<module>.tla with spec/<cfg>. Returns TlcResult. Raises ToolError on
     parse errors / crashes / timeouts."""
     tag = tag or f"{module}_{os.path.basename(cfg)}_{os.getpid()}_{int(time.time()*1000)%100000}"
@@ -62,10 +82,10 @@ def run_tlc(module, cfg, workers=4, timeout=600, simulate=None, depth=None, dump
     tmp = os.path.join(PWORK, "tmp")
     os.makedirs(meta, exist_ok=True)
     os.makedirs(tmp, exist_ok=True)
-    jopts = f"-Djava.io.tmpdir={tmp} -Xss512m"
+    jopts = f"-Djava.io.tmpdir={tmp} -Xss{xss}"
     if deque:
         jopts += " -Dtlc2.tool.queue.IStateQueue=StateDeque"
-    cmd = ["java", "-XX:+UseParallelGC", f"-Xmx{heap}"] + jopts.split() + ["-cp", JAR, "tlc2.TLC",
+    cmd = ["java", "-XX:+UseSerialGC" if heap in ("2g", "4g") else "-XX:+UseParallelGC", "-XX:CICompilerCount=2", f"-Xmx{heap}"] + jopts.split() + ["-cp", JAR, "tlc2.TLC",
            "-workers", str(workers), "-metadir", meta, "-noGenerateSpecTE",
            "-config", cfg]
     if coverage and not simulate:
@@ -83,7 +103,7 @@ def run_tlc(module, cfg, workers=4, timeout=600, simulate=None, depth=None, dump
     cmd += [module + ".tla"]
     t0 = time.time()
     try:
-        p = sh(cmd, cwd=SPEC, env=env, timeout=timeout)
+        p = sh(cmd, cwd=cwd or SPEC, env=env, timeout=timeout)
     except subprocess.TimeoutExpired:
         shutil.rmtree(meta, ignore_errors=True)
         raise ToolError(f"TLC timeout after {timeout}s: {module} {cfg}")
@@ -168,17 +188,17 @@ def sany(module):
     return ("Semantic errors" not in p.stdout and "rror" not in p.stdout.replace("errors: 0", "")), p.stdout
 
 
-def validate_trace(module, cfg, trace_path, timeout=300, heap="2g", extra_env=None):
+def validate_trace(module, cfg, trace_path, timeout=300, heap="2g", extra_env=None, cwd=None):
     """Trace validation: TLC on a Trace_* module with IOEnv.TRACE. Returns (accepted, reached, total, TlcResult)."""
     env = {"TRACE": os.path.abspath(trace_path)}
     if extra_env:
         env.update(extra_env)
     try:
-        r = run_tlc(module, cfg, workers=1, timeout=timeout, env=env, coverage=False, heap=heap, deque=True)
+        r = run_tlc(module, cfg, workers=1, timeout=timeout, env=env, coverage=False, heap=heap, deque=True, cwd=cwd, xss="512m")
     except ToolError as e:
         raise
     reached = total = None
-    m = re.search(r"TRACE-REACHED (\d+) OF (\d+)", r.out)
+    m = re.search(r'TRACE-REACHED", (\d+), "OF", (\d+)', r.out)
     if m:
         reached, total = int(m.group(1)), int(m.group(2))
     accepted = r.violated is None and (reached is None or reached == total)
